@@ -80,6 +80,16 @@ func (z *Zone) Answer(name string, typ uint16) (rcode int, ans []AnsRec) {
 	if rc, ok := z.RCode[Key(name, typ)]; ok {
 		return rc, nil
 	}
+	// names compare case-insensitively (RFC 4343); the zone's own keys are lower case and
+	// the answer spells the asked name the way the question did
+	asked := name
+	name = strings.ToLower(name)
+	spell := func(n string) string {
+		if n == name {
+			return asked
+		}
+		return n
+	}
 	cur := name
 	seen := map[string]bool{}
 	exists := false
@@ -92,7 +102,7 @@ func (z *Zone) Answer(name string, typ uint16) (rcode int, ans []AnsRec) {
 			break
 		}
 		seen[cur] = true
-		ans = append(ans, AnsRec{cur, 5, c})
+		ans = append(ans, AnsRec{spell(cur), 5, c})
 		cur = c.CNAME
 	}
 	var recs []ZRec
@@ -105,7 +115,7 @@ func (z *Zone) Answer(name string, typ uint16) (rcode int, ans []AnsRec) {
 		recs = z.HTTPS[cur]
 	}
 	for _, r := range recs {
-		ans = append(ans, AnsRec{cur, typ, r})
+		ans = append(ans, AnsRec{spell(cur), typ, r})
 	}
 	if !exists && len(ans) == 0 {
 		return 3, nil
